@@ -12,7 +12,7 @@ CLAIMED = {
 
 CLAIMED["C03"] = ("ovf-codec", "exploration",
   "differential property testing against an independent reference implementation (proptest), both directions",
-  "Generated (credential, cipher, option mask, address, write script) cases: bytes from the real encoders are decoded by an independent reference implementation of Shadowsocks AEAD/2022 (+identity headers), VMess AEAD and Trojan configured only with the password strings, with sender limits enforced; reference-built streams and datagrams are decoded by the real decoders; address and payload must match in both directions, TCP and UDP. Exploration of the input space, relative to the reference.",
+  "Generated (credential, cipher, option mask, address, write script) cases: bytes from the real encoders are decoded by an independent reference implementation of Shadowsocks AEAD/2022 (+identity headers), VMess AEAD and Trojan configured only with the password strings, with sender limits enforced; reference-built streams and datagrams are decoded by the real decoders; address and payload must match in both directions, TCP and UDP. identity-chain: client passwords with 1..3 identity keys in front of the user key (SIP023 relay chains), streams and datagrams: the real client encodes and the reference walks the chain relay by relay (each identity header must name the next key; the body must open under the user key and carry the given address and bytes). Exploration of the input space, relative to the reference.",
   "Trusted: the reference implementation (written from the specifications, anchored by third-party known-answer vectors re-run at start-up), RustCrypto primitives, the clock hook.", "DESIGN.md 5/C03")
 
 CLAIMED["C04"] = ("ovf-codec", "exploration",
